@@ -3,8 +3,10 @@ SPEC = {
     'theorems': ['EV.Mempool.C09_inv', 'EV.Mempool.C09_truthful', 'EV.Mempool.C09_recovers',
                  'EV.Mempool.C09_height_guard', 'EV.Mempool.C09_loop',
                  'EV.Mempool.IndexError.C09_counterexample_index_error'],
-    'suites': ['mempool'],
-    'entry': {'mempool': 'run_race'},
+    'suites': ['mempool', 'system'],
+    'entry': {'mempool': 'run_race', 'system': 'run'},
+    # of what the shared system suite finds, C09 is about the mempool task staying alive and its view
+    'claims': {'violation_tags': ['task_died', 'mempool_view']},
     'assumptions': [
         'EnvSound: a raw transaction delivered for hash h is the transaction with id h (or None, at any time, for '
         'any hash); lookup_utxos answers None or the true (hashX, value) of that output for every prevout of every '
